@@ -89,6 +89,15 @@ def build(s, log, state):
                 return 'not-an-int'   # unserialisable for the eager XML serialisers
             return a + 1
 
+        @srpc(Integer, _returns=(Integer, Integer), _evmgr=mev)
+        def p(a):
+            # two values are declared; inj.ser == 'empty': an empty sequence is returned
+            log.append(['fn', 'call'])
+            state['in_fn'] = True
+            raise_outcome(inj['fn'], state)
+            state['fnOk'] = True
+            return () if inj['ser'] == 'empty' else (a, a + 1)
+
         @srpc(Integer, _evmgr=mev)
         def h(a):
             # a method that declares no return value
@@ -147,7 +156,7 @@ def body_for(s):
     """-> (environ-extras, body bytes).  For wsgi scenarios the body is exactly
     len*UNIT bytes with the padding *inside* the document."""
     fam, cls = s['cfg']['family'], s['req']['class']
-    meth = 'zzz' if cls == 'unknown' else {'gen': 'g', 'none': 'h'}.get(s['inj'].get('res'), 'f')
+    meth = 'zzz' if cls == 'unknown' else 'p' if s['inj'].get('ser') == 'empty' else {'gen': 'g', 'none': 'h'}.get(s['inj'].get('res'), 'f')
     arg = 'notint' if cls == 'badargs' else '5'
     env = {'REQUEST_METHOD': 'POST', 'PATH_INFO': '/', 'QUERY_STRING': '',
            'CONTENT_TYPE': 'text/xml; charset=utf-8'}
